@@ -452,12 +452,19 @@ def _run(ctx, oracle_only=False, big=None):
 
 
 def correspondence(ctx):
-    return _run(ctx)
+    from props import c07_wire
+
+    r = _run(ctx)
+    r.merge(c07_wire.run(ctx))
+    return r
 
 
 def search(ctx, prior):
     # oracle only: first at the tier's own size, then (nothing found) on the large stream with a third zone
+    from props import c07_wire
+
     r = _run(ctx, oracle_only=True)
+    r.merge(c07_wire.run(ctx))
     known = set()
     try:
         from framework import load_known
@@ -510,6 +517,10 @@ def _judge(i):
 
 
 def replay(ctx, doc):
+    if doc["failure"]["input"].get("kind") == "wire-listing":
+        from props import c07_wire
+
+        return c07_wire.replay(doc["failure"]["input"])
     f = doc.get("failure") or doc.get("replay") or {}
     i = f.get("input", f)
     return _judge(i) is not None
